@@ -24,7 +24,8 @@ class Contract:
     `old` is a Snapshot; `a` is the dict of bound arguments."""
 
     def __init__(self, key, params=None, cases=None, requires=None, ensures=None, raises=None, modifies=None,
-                 havoc=None, result=None, assumed=False, props=(), closure_of=None, doc="", pure=False):
+                 havoc=None, result=None, assumed=False, props=(), closure_of=None, doc="", pure=False,
+                 inline_at_calls=False, normal_when=None):
         self.key, self.params = key, params
         self.cases = cases or []
         self.requires = requires or (lambda c, a: True)
@@ -34,6 +35,7 @@ class Contract:
         self.havoc = havoc
         self.result = result or (lambda c, a: None)
         self.assumed, self.props, self.closure_of, self.doc, self.pure = assumed, tuple(props), closure_of, doc, pure
+        self.inline_at_calls, self.normal_when = inline_at_calls, normal_when
 
 
 class Engine:
@@ -112,6 +114,8 @@ class Engine:
         if isinstance(fn, types.FunctionType):
             key = self.func_key(fn)
             ct = self.contracts.get(key)
+            if ct is not None and ct.inline_at_calls:
+                ct = None
             if ct is not None and key != self.current_target:
                 fnode, mod = self.find_def(fn) if fn.__module__.startswith(PKG) else (None, None)
                 if fnode is not None:
@@ -196,7 +200,7 @@ class Engine:
         """Use of a contract at a call site: prove requires, havoc the frame, assume one outcome's post."""
         line = getattr(node, "lineno", "?")
         short = ct.key.split(":")[-1]
-        req = ct.requires(c, a)
+        req = c.proving(ct.requires, c, a)
         if req is not True:
             c.prove(f"call:{short}.requires", req, node)
         old = c.snapshot()
@@ -311,7 +315,21 @@ class Engine:
             if cell.kind == "dict":
                 return self.dict_method(c, val, cell, name, args, kwargs, node)
         if isinstance(val, BigInt):
-            pass
+            if name == "to_bytes" and val.xor_with is not None:
+                n_, order = args[0], args[1] if len(args) > 1 else kwargs.get("byteorder")
+                if order != val.order:
+                    raise Undecided("to_bytes with a different byte order")
+                a_, b_ = val.seq, val.xor_with
+                nt = z(n_, "int")
+                # A-INTXOR (DESIGN 2.3): digit-wise xor in base 256 for operands of equal length n
+                c.prove("A-INTXOR.pre", z3.And(smt.slen(a_) == nt, smt.slen(b_) == nt), node)
+                r = smt.fresh(smt.Sq, "xored")
+                i = z3.Int("i!x")
+                c.assume(smt.slen(r) == nt)
+                c.assume(z3.ForAll([i], z3.Implies(z3.And(0 <= i, i < nt), smt.at(r, i) == smt.bxor(smt.at(a_, i), smt.at(b_, i))),
+                                   patterns=[smt.at(r, i)]))
+                return SV("bytes", r)
+            raise Undecided(f"method {name} of int.from_bytes() result")
         if tg == "bytes":
             return self.bytes_method(c, val, name, args, kwargs, node)
         if tg == "str":
@@ -515,7 +533,7 @@ class Engine:
                     for (cls, when, post) in ct.raises:
                         if issubclass(exc.cls, cls):
                             w = when(c, old, a) if when else True
-                            p = post(c, old, a, exc) if post else True
+                            p = c.proving(post, c, old, a, exc) if post else True
                             if isinstance(p, ExcVal):
                                 p = True
                             fs = [x for x in (w, p) if x is not True]
@@ -526,7 +544,7 @@ class Engine:
                     c.prove(f"raises.unexpected:{exc.cls.__name__}", False, fnode,
                             note=f"exception {exc.cls.__name__}{tuple(str(x)[:60] for x in exc.args)} is not allowed by the contract")
                     return f"raise! {exc.cls.__name__}"
-                c.prove("post.normal", ct.ensures(c, old, a, res), fnode)
+                c.prove("post.normal", c.proving(ct.ensures, c, old, a, res), fnode)
                 self.frame_exit(c, ct, old, a, fnode, "frame")
                 return "normal"
             try:
